@@ -841,9 +841,10 @@ fn pool_request_combinations(run: &Run, deltas: &[i8]) {
     let ms = PoolKey::new(Denom::Mel, Denom::Sym);
     let liq = ms.liq_token_denom();
     // a faucet hands out liquidity tokens of the built-in MEL/SYM pool (1e9 recorded) and MEL carriers for the requests
-    let amounts: [u128; 5] = [600_000_000, 600_000_000, 1_000_000_001, 1, 400_000_000];
+    // (a zero-valued withdrawal joined after the mutation scan: `value > 0` -> `>= 0` in the request filter survived)
+    let amounts: [u128; 6] = [600_000_000, 600_000_000, 1_000_000_001, 1, 400_000_000, 0];
     let mut outs: Vec<CoinData> = amounts.iter().map(|a| out_t(*a, liq)).collect();
-    for i in 0..8u128 {
+    for i in 0..10u128 {
         outs.push(out_t(1000 + i, Denom::Mel));
     }
     for i in 0..4u128 {
@@ -866,14 +867,14 @@ fn pool_request_combinations(run: &Run, deltas: &[i8]) {
     // swaps on both sides with zero, unit and full values
     for (j, (side, val)) in [(Denom::Mel, 0u128), (Denom::Mel, 1), (Denom::Sym, 0), (Denom::Sym, 2000)].iter().enumerate() {
         let (ins, outs) = if *side == Denom::Mel {
-            let id = f.output_coinid(n_liq + 5 + j as u8);
-            let v = 1000 + 5 + j as u128;
+            let id = f.output_coinid(n_liq + 6 + j as u8);
+            let v = 1000 + 6 + j as u128;
             (vec![id], vec![out_t(*val, Denom::Mel), out_t(v - val, Denom::Mel)])
         } else {
-            let sid = f.output_coinid(n_liq + 8 + (j as u8 - 2));
+            let sid = f.output_coinid(n_liq + 10 + (j as u8 - 2));
             let sv = 2000 + (j as u128 - 2);
-            let mid = f.output_coinid(n_liq + 5 + j as u8);
-            let mv = 1000 + 5 + j as u128;
+            let mid = f.output_coinid(n_liq + 6 + j as u8);
+            let mv = 1000 + 6 + j as u128;
             (vec![sid, mid], vec![out_t(*val, Denom::Sym), out_t(sv - val.min(&sv), Denom::Sym), out_t(mv, Denom::Mel)])
         };
         reqs.push((format!("swap {} of {:?}", val, side), tx_t(TxKind::Swap, ins, outs, 0, ms.to_bytes().to_vec())));
@@ -939,7 +940,7 @@ fn user_pool_request_combinations(run: &Run, deltas: &[i8]) {
     let res = guard(|| {
         let mut u1 = w.genesis.clone().seal(None).next_unsealed();
         let mut outs = vec![out_t(side_value(k.left()), k.left()), out_t(side_value(k.right()), k.right())];
-        for i in 0..10u128 {
+        for i in 0..12u128 {
             outs.push(out_t(1000 + i, Denom::Mel));
         }
         outs.push(out_t(5000, xd));
@@ -953,7 +954,7 @@ fn user_pool_request_combinations(run: &Run, deltas: &[i8]) {
         let s2 = u2.seal(None);
         let n = s2.coin(dep.output_coinid(0)).filter(|c| c.coin_data.denom == liq)?.coin_data.value.0;
         let mut u3 = s2.next_unsealed();
-        let forged: Vec<u128> = vec![1, n, n / 2 + 1, n - 1];
+        let forged: Vec<u128> = vec![1, n, n / 2 + 1, n - 1, 0];
         let f2 = tx_t(TxKind::Faucet, vec![], forged.iter().map(|a| out_t(*a, liq)).collect(), 0, b"user-pool-forged-liq".to_vec());
         u3.apply_tx(&f2).ok()?;
         Some((u3, f1, dep, f2, n, forged))
@@ -977,13 +978,13 @@ fn user_pool_request_combinations(run: &Run, deltas: &[i8]) {
         reqs.push((format!("withdraw {} never issued", a), tx_t(TxKind::LiqWithdraw, vec![f2.output_coinid(i as u8), c.0], vec![out_t(*a, liq)], c.1, k.to_bytes().to_vec())));
     }
     for (j, val) in [0u128, 1, 500].iter().enumerate() {
-        let c = carrier(5 + j as u8);
+        let c = carrier(6 + j as u8);
         reqs.push((format!("swap {} of MEL", val), tx_t(TxKind::Swap, vec![c.0], vec![out_t(*val, Denom::Mel), out_t(c.1 - val, Denom::Mel)], 0, k.to_bytes().to_vec())));
     }
     for (j, val) in [0u128, 5001].iter().enumerate() {
-        let c = carrier(8 + j as u8);
+        let c = carrier(9 + j as u8);
         let xv = 5000 + j as u128;
-        reqs.push((format!("swap {} of the token", val), tx_t(TxKind::Swap, vec![f1.output_coinid(12 + j as u8), c.0], vec![out_t(*val, xd), out_t(xv - val.min(&xv), xd), out_t(c.1, Denom::Mel)], 0, k.to_bytes().to_vec())));
+        reqs.push((format!("swap {} of the token", val), tx_t(TxKind::Swap, vec![f1.output_coinid(14 + j as u8), c.0], vec![out_t(*val, xd), out_t(xv - val.min(&xv), xd), out_t(c.1, Denom::Mel)], 0, k.to_bytes().to_vec())));
     }
     run.set("user_pool_request_combinations", json!({"pool": "MEL / custom token, created by one deposit", "liquidity_issued": n.to_string(), "requests": reqs.iter().map(|r| r.0.clone()).collect::<Vec<_>>(), "subsets": "all of size 2 and 3"}));
     run_request_subsets(run, deltas, json!({"setup": "genesis[Custom02] ; faucet(funds) ; seal ; deposit[MEL/token] ; seal ; faucet(liquidity tokens never issued: 1, N, N/2+1, N-1)"}), u3, reqs);
